@@ -178,6 +178,8 @@ pub struct JobServer {
 
 impl JobServer {
     const ENV_CHEATFDS: &'static str = "REDO_CHEATFDS";
+    /// The token pipe (as in MAKEFLAGS) that the pipe named by `REDO_CHEATFDS` goes with.
+    const ENV_CHEATFDS_FOR: &'static str = "REDO_CHEATFDS_FOR";
     const ENV_MAKEFLAGS: &'static str = "MAKEFLAGS";
 
     pub fn setup(max_jobs: i32) -> Result<JobServer, RedoError> {
@@ -226,7 +228,17 @@ impl JobServer {
         // The cheat pipe goes with the token pipe: reuse the parent's only if we join its
         // jobserver.  (With MAKEFLAGS removed from our environment we start a jobserver of
         // our own; on the parent's cheat pipe the two builds would eat each other's bytes.)
-        let cheats = if token_fds.is_some() {
+        // ... and only if it is still the same token pipe.  A `make -jN` between the redo
+        // that made the cheat pipe and us has a token pipe of its own and passes the variable
+        // on untouched: on that cheat pipe a borrowed slot was paid back to the redo above
+        // make, while make kept the token we had handed to it -- make ended with a token too
+        // many, that redo with one too few.  (REDO_CHEATFDS_FOR is absent when somebody else
+        // set up the pipes for us: then the cheat pipe is taken as given.)
+        let same_token_pipe = match (token_fds, env::var(JobServer::ENV_CHEATFDS_FOR)) {
+            (Some((a, b)), Ok(v)) => v == format!("{},{}", a, b),
+            _ => true,
+        };
+        let cheats = if token_fds.is_some() && same_token_pipe {
             match env::var(JobServer::ENV_CHEATFDS) {
                 Ok(v) => v,
                 Err(VarError::NotPresent) => String::new(),
@@ -276,6 +288,9 @@ impl JobServer {
             }
         };
         let (cheat_fds, own_cheat_pipe) = cheat_fds;
+        if let (true, Some((a, b))) = (own_cheat_pipe, token_fds) {
+            env::set_var(JobServer::ENV_CHEATFDS_FOR, format!("{},{}", a, b));
+        }
         match token_fds {
             Some(token_fds) => Ok(JobServer {
                 params: Rc::new(ServerParams {
@@ -313,6 +328,10 @@ impl JobServer {
                         " -j --jobserver-auth={0},{1} --jobserver-fds={0},{1}",
                         token_fds.0, token_fds.1
                     ),
+                );
+                env::set_var(
+                    JobServer::ENV_CHEATFDS_FOR,
+                    format!("{},{}", token_fds.0, token_fds.1),
                 );
                 Ok(server)
             }
